@@ -65,7 +65,7 @@ structure GenCfg where
   copyNilDestPanics : Bool := true
   /-- `true` (original emitter): Reset dereferences nil pointer-to-scalar fields and nil pointer
       elements of slices. -/
-  resetNilPtrPanics : Bool := true
+  resetNilPtrPanics : Bool := false   -- repaired in /repo (fix: Reset dereferenced nil pointers)
   /-- `true` (original emitter): a non-nil pointer to an *empty* map or slice is not copied at all
       (`if len(*r) > 0 {` wraps the allocation): the copy holds a nil pointer where the source does not. -/
   copyEmptyPtrCollDropped : Bool := true
@@ -101,7 +101,7 @@ deriving Repr, Inhabited
 /-- The configuration that mirrors the tree as it is (flags flip when a `fix:` commit lands). -/
 def GenCfg.repo : GenCfg := {}
 /-- The tree as it was at the pinned commit (1c76ae3), before the `fix:` commits in /repo. -/
-def GenCfg.original : GenCfg := { GenCfg.repo with strAppendsOld := true, negIndexPanics := true, loopRootMapSkipped := true, loopNilKeyPanics := true, nilRootPanics := true }
+def GenCfg.original : GenCfg := { GenCfg.repo with strAppendsOld := true, negIndexPanics := true, loopRootMapSkipped := true, loopNilKeyPanics := true, nilRootPanics := true, resetNilPtrPanics := true }
 /-- Every listed defect repaired: the configuration the property theorems are proved for. -/
 def GenCfg.fixed : GenCfg where
   fallThroughAlways := false
